@@ -2,7 +2,10 @@
 
 package handshake
 
-import "github.com/refraction-networking/uquic/internal/protocol"
+import (
+	"github.com/refraction-networking/uquic/internal/protocol"
+	"github.com/refraction-networking/uquic/internal/utils"
+)
 
 // C02 (udial / simdial). Add-only.
 
@@ -12,4 +15,81 @@ import "github.com/refraction-networking/uquic/internal/protocol"
 func VerifClientInitialOpener(origDestConnID protocol.ConnectionID, v protocol.Version) LongHeaderOpener {
 	_, opener := NewInitialAEAD(origDestConnID, protocol.PerspectiveServer, v)
 	return opener
+}
+
+// UdialKeyClass is one getter's answer in one key phase: 0 = keys returned,
+// 1 = ErrKeysNotYetAvailable, 2 = ErrKeysDropped, 3 = another error.
+type UdialKeyClass struct {
+	Phase  string // which keys are installed
+	Getter string
+	Plain  int // cryptoSetup (plain Transport, nil spec)
+	Spec   int // uCryptoSetup (UTransport with a QUICSpec)
+}
+
+func udialErrClass(err error) int {
+	switch err {
+	case nil:
+		return 0
+	case ErrKeysNotYetAvailable:
+		return 1
+	case ErrKeysDropped:
+		return 2
+	}
+	return 3
+}
+
+// VerifUdialKeyPhases builds a plain and a spec-driven crypto setup with the same keys
+// installed -- every combination of Initial / Handshake / 0-RTT / 1-RTT keys present or absent --
+// and asks each of the eight sealer / opener getters. "A UTransport's crypto setup differs from
+// the plain one only in the ClientHello": the answers must be of the same class.
+func VerifUdialKeyPhases() []UdialKeyClass {
+	var out []UdialKeyClass
+	dcid := protocol.ParseConnectionID([]byte{1, 2, 3, 4, 5, 6, 7, 8})
+	for m := 0; m < 16; m++ {
+		ini, hs, z, one := m&1 != 0, m&2 != 0, m&4 != 0, m&8 != 0
+		phase := "initial=" + udialYN(ini) + " handshake=" + udialYN(hs) + " 0rtt=" + udialYN(z) + " 1rtt=" + udialYN(one)
+		mk := func() (*cryptoSetup, *uCryptoSetup) {
+			sealer, opener := NewInitialAEAD(dcid, protocol.PerspectiveClient, protocol.Version1)
+			p := &cryptoSetup{rttStats: &utils.RTTStats{}, logger: utils.DefaultLogger, perspective: protocol.PerspectiveClient}
+			s := &uCryptoSetup{rttStats: &utils.RTTStats{}, logger: utils.DefaultLogger, perspective: protocol.PerspectiveClient}
+			if ini {
+				p.initialSealer, p.initialOpener, s.initialSealer, s.initialOpener = sealer, opener, sealer, opener
+			}
+			if hs {
+				p.handshakeSealer, p.handshakeOpener, s.handshakeSealer, s.handshakeOpener = sealer, opener, sealer, opener
+			}
+			if z {
+				p.zeroRTTSealer, p.zeroRTTOpener, s.zeroRTTSealer, s.zeroRTTOpener = sealer, opener, sealer, opener
+			}
+			p.has1RTTSealer, p.has1RTTOpener, s.has1RTTSealer, s.has1RTTOpener = one, one, one, one
+			return p, s
+		}
+		type pair struct {
+			name string
+			f    func(p *cryptoSetup, s *uCryptoSetup) (error, error)
+		}
+		getters := []pair{
+			{"GetInitialSealer", func(p *cryptoSetup, s *uCryptoSetup) (error, error) { _, a := p.GetInitialSealer(); _, b := s.GetInitialSealer(); return a, b }},
+			{"GetInitialOpener", func(p *cryptoSetup, s *uCryptoSetup) (error, error) { _, a := p.GetInitialOpener(); _, b := s.GetInitialOpener(); return a, b }},
+			{"GetHandshakeSealer", func(p *cryptoSetup, s *uCryptoSetup) (error, error) { _, a := p.GetHandshakeSealer(); _, b := s.GetHandshakeSealer(); return a, b }},
+			{"GetHandshakeOpener", func(p *cryptoSetup, s *uCryptoSetup) (error, error) { _, a := p.GetHandshakeOpener(); _, b := s.GetHandshakeOpener(); return a, b }},
+			{"Get0RTTSealer", func(p *cryptoSetup, s *uCryptoSetup) (error, error) { _, a := p.Get0RTTSealer(); _, b := s.Get0RTTSealer(); return a, b }},
+			{"Get0RTTOpener", func(p *cryptoSetup, s *uCryptoSetup) (error, error) { _, a := p.Get0RTTOpener(); _, b := s.Get0RTTOpener(); return a, b }},
+			{"Get1RTTSealer", func(p *cryptoSetup, s *uCryptoSetup) (error, error) { _, a := p.Get1RTTSealer(); _, b := s.Get1RTTSealer(); return a, b }},
+			{"Get1RTTOpener", func(p *cryptoSetup, s *uCryptoSetup) (error, error) { _, a := p.Get1RTTOpener(); _, b := s.Get1RTTOpener(); return a, b }},
+		}
+		for _, g := range getters {
+			p, s := mk()
+			a, b := g.f(p, s)
+			out = append(out, UdialKeyClass{Phase: phase, Getter: g.name, Plain: udialErrClass(a), Spec: udialErrClass(b)})
+		}
+	}
+	return out
+}
+
+func udialYN(b bool) string {
+	if b {
+		return "yes"
+	}
+	return "no"
 }
